@@ -22,13 +22,18 @@ m = {
          "serves_properties": sorted(p for p, c in CLAIMED.items() if "A" in c["engines"]),
          "kind_free_text": "Hoare triples over regular languages on the real string functions: class alphabet computed "
                            "exhaustively from the running CPython, exact automata inclusion (all strings, all lengths)"},
-        {"name": "pyvc-B", "path": "pyvc/symexec.py pyvc/engine_b.py",
+        {"name": "pyvc-B", "path": "pyvc/symexec.py pyvc/engine_b.py pyvc/libmodels.py pyvc/absdata.py pyvc/crosscheck_b.py pyvc/natinterp.py",
          "serves_properties": sorted(p for p, c in CLAIMED.items() if "B" in c["engines"]),
-         "kind_free_text": "ast -> z3 symbolic executor over the real function bodies with sidecar contracts, per-path "
-                           "queries, loop invariants; exceptions as outcomes"},
+         "kind_free_text": "ast -> z3 symbolic executor over the real function bodies with sidecar contracts: decision-replay "
+                           "path exploration, one validity query per path and clause, callee summaries, inductive loop "
+                           "invariants (for/while, nested, variants, ghost state, abstract containers as z3 terms), exceptions as "
+                           "outcomes; cross-checked against CPython on concrete inputs; z3 unsat answers re-decided by cvc5"},
         {"name": "pyvc-C", "path": "pyvc/sites.py",
          "serves_properties": sorted(p for p, c in CLAIMED.items() if "C" in c["engines"]),
-         "kind_free_text": "refinement typing of every Jinja output site against proven producer post-conditions"},
+         "kind_free_text": "document slots x lexical contexts: a slot document with a unique marker in every string position is "
+                           "rendered by the real generator, CPython's tokenizer gives the lexical context of every occurrence, "
+                           "and for each (slot, context) pair the inclusion L(slot) <= Required(context) is discharged by "
+                           "engine A for all strings (contexts are measured, not derived by a static analysis of the templates)"},
         {"name": "pyvc-F", "path": "pyvc/fragments.py",
          "serves_properties": sorted(p for p, c in CLAIMED.items() if "F" in c["engines"]),
          "kind_free_text": "generated-code fragments rendered from the real templates with real property objects and "
